@@ -185,6 +185,16 @@ def p_k_ge(e, n):
 
 
 @predicate
+def p_n_le_a(n, e):
+    """function predicate whose FIRST argument is the constant and whose second is the entity"""
+    return e.a >= n
+
+
+def py_p_n_le_a(n, e):
+    return e.a >= n
+
+
+@predicate
 def p_a_lt(e, f):
     """function predicate relating two entities"""
     return e.a < f.a
@@ -259,7 +269,7 @@ class BLess(Predicate):
         return self.e.b < self.f.b
 
 
-FUNC_PREDS = {"p_runs_subquery": (p_runs_subquery, py_p_runs_subquery), "p_flaky": (p_flaky, py_p_flaky), "p_a_ge": (p_a_ge, py_p_a_ge), "p_a_lt": (p_a_lt, py_p_a_lt), "p_same_b": (p_same_b, py_p_same_b)}
+FUNC_PREDS = {"p_n_le_a": (p_n_le_a, py_p_n_le_a), "p_runs_subquery": (p_runs_subquery, py_p_runs_subquery), "p_flaky": (p_flaky, py_p_flaky), "p_a_ge": (p_a_ge, py_p_a_ge), "p_a_lt": (p_a_lt, py_p_a_lt), "p_same_b": (p_same_b, py_p_same_b)}
 CLASS_PREDS = {"IsBig": (IsBig, lambda e: e.k >= 2), "BLess": (BLess, lambda e, f: e.b < f.b)}
 
 
